@@ -18,6 +18,7 @@ import (
 	"encoding/json"
 	"flag"
 	"fmt"
+	"os"
 	"runtime"
 	"sort"
 	"strings"
@@ -688,6 +689,106 @@ func kbScenario(t *buf, r *gen.R, pool []pw) {
 	getcb()
 }
 
+// kbGuardScenario: one key protected by a NON-EMPTY passphrase; every passphrase-taking operation
+// is tried with every near variant of it (whitespace, case, NFC/NFD, prefix/suffix, doubled, the
+// EMPTY passphrase, trailing NUL); each must be refused AND leave the key in place (Get after
+// every attempt, List at the end).  lazy = the LevelDB-backed keybase (keys.New) in a scratch dir.
+func kbGuardScenario(t *buf, r *gen.R, lazy bool) {
+	var kb keys.Keybase
+	if lazy {
+		dir, err := os.MkdirTemp(".", "c40-lazy-")
+		if err != nil {
+			return
+		}
+		defer os.RemoveAll(dir)
+		kb = keys.New("verif-keys", dir)
+	} else {
+		kb = keys.NewInMemory()
+	}
+	h := &kbHarness{t: t, kb: kb, r: r, known: map[string]string{}, cur: map[string]string{}}
+	k0 := newKey(r, false)
+	h.pool = []key{k0}
+	right := "pass-Wörd1"
+	t.Line("newkb", true, "newkb => OK")
+	res := try(func() string {
+		var raw [64]byte
+		copy(raw[:], k0.priv.RawBytes())
+		kp, err := kb.ImportPrivateKeyObject(raw, right)
+		if err != nil {
+			return errClass(err)
+		}
+		return "OK " + hex.EncodeToString(kp.GetAddress())
+	})
+	t.Line("import", strings.HasPrefix(res, "OK"), "import %s %s %s => %s", privHex(k0.priv), k0.addr, hx(right), res)
+	get := func() {
+		res := try(func() string {
+			kp, err := kb.Get(addrOf(k0.addr))
+			if err != nil {
+				return errClass(err)
+			}
+			return "OK " + hex.EncodeToString(kp.GetAddress())
+		})
+		t.Line("get", strings.HasPrefix(res, "OK"), "get %s => %s", k0.addr, res)
+	}
+	vs := variants(right)
+	for i, v := range vs {
+		v := v
+		res := try(func() string { return errClass(kb.Delete(addrOf(k0.addr), v)) })
+		t.Line("delete", res == "OK", "delete %s %s => %s", k0.addr, hx(v), res)
+		get()
+		// the other operations: all of them for the empty passphrase and the whitespace family,
+		// otherwise one, round robin (each attempt costs one scrypt evaluation)
+		all := v == "" || v == right+"\n" || v == " "+right || v == right+"\u00a0"
+		if lazy {
+			all = v == ""
+			if !all && i%2 == 1 {
+				continue // the LevelDB keybase re-opens the database per call: Delete for every variant, the rest for half
+			}
+		}
+		if all || i%4 == 0 {
+			res = try(func() string { return errClass(kb.Update(addrOf(k0.addr), v, "other")) })
+			t.Line("update", res == "OK", "update %s %s %s => %s", k0.addr, hx(v), hx("other"), res)
+			if res == "OK" {
+				h.exportObjLine(k0.addr, "other")
+			}
+		}
+		if all || i%4 == 1 {
+			h.exportObjLine(k0.addr, v)
+		}
+		if all || i%4 == 2 {
+			res = try(func() string {
+				sig, pub, err := kb.Sign(addrOf(k0.addr), v, []byte{7})
+				if err != nil {
+					return errClass(err)
+				}
+				return fmt.Sprintf("OK %v %s", pub.VerifyBytes([]byte{7}, sig), hex.EncodeToString(pub.Address()))
+			})
+			t.Line("sign", strings.HasPrefix(res, "OK"), "sign %s %s => %s", k0.addr, hx(v), res)
+		}
+		if all || i%4 == 3 {
+			res = try(func() string {
+				armor, err := kb.ExportPrivKeyEncryptedArmor(addrOf(k0.addr), v, "n", "h")
+				if err != nil {
+					return errClass(err)
+				}
+				p, err := mintkey.UnarmorDecryptPrivKey(armor, "n")
+				if err != nil {
+					return "OK UNREADABLE"
+				}
+				return "OK " + privHex(p)
+			})
+			t.Line("export", strings.HasPrefix(res, "OK"), "export %s %s %s => %s", k0.addr, hx(v), hx("n"), res)
+		}
+	}
+	h.listLine()
+	// and the right passphrase still works
+	h.exportObjLine(k0.addr, right)
+	res = try(func() string { return errClass(kb.Delete(addrOf(k0.addr), right)) })
+	t.Line("delete", res == "OK", "delete %s %s => %s", k0.addr, hx(right), res)
+	get()
+	h.listLine()
+}
+
 func kbCase(t *buf, r *gen.R, pool []pw, ops int) {
 	h := &kbHarness{t: t, kb: keys.NewInMemory(), r: r, pws: []pw{pool[r.Intn(len(pool))], pool[r.Intn(len(pool))], pool[r.Intn(len(pool))]}, known: map[string]string{}}
 	// make nul-padded / hashed twins meet regularly
@@ -741,6 +842,10 @@ func main() {
 			r := gen.New(seeds[i])
 			if i == 1 {
 				kbScenario(b, r, pool)
+			} else if i == 2 {
+				kbGuardScenario(b, r, false)
+			} else if i == 4 {
+				kbGuardScenario(b, r, true)
 			} else if i%3 == 0 {
 				mintkeyCase(b, r, pool)
 			} else {
